@@ -34,7 +34,7 @@ TARGETS = [
          structs=["vls-core/src/tx/tx.rs"], fns=[
         ("EnforcementState", "minimum_to_holder_value", "C07", "C07_fn_minimum_to_holder_value"),
         ("EnforcementState", "minimum_to_counterparty_value", "C07", "C07_fn_minimum_to_counterparty_value"),
-        ("", "min_opt", "C06", None, "snippet"),
+        ("", "min_opt", "C06", "C06_fn_min_opt", "snippet"),
     ]),
     dict(area="Kvv", rel="vls-persist/src/kvv/memory.rs", consts=[], externals={}, fns=[
         ("MemoryKVVStore", "put_with_version", "C16", "C16_fn_put_with_version"),
